@@ -11,6 +11,7 @@ The numerical kernels (np.gradient, scipy filters, DAISY) are library code: they
 The scale statistic (`np.std`, `np.linalg.norm` need a square root) is a contract parameter `stat`.
 Core Lean only (no Mathlib).
 -/
+import MenpoModel.Core.C18Float
 
 namespace MenpoModel.C18
 
@@ -43,14 +44,18 @@ inductive Err where
   | scale                     -- `Image.rescale`: "Scales must be positive floats." (a new extent is 0)
   | dims                      -- shapes of different dimensionality
   | index                     -- centre outside the mask
+  | maskShape                 -- `MaskedImage(pixels, mask=…)`: "Trying to set a mask with an invalid shape"
 deriving DecidableEq, Repr
 
 /-! ### nearest-neighbour mask resize (`BooleanImage.resize` → `rescale(round='round')` → `warp_to_shape(order=0, mode='nearest')`)
 
-Along an axis of old extent `o` and new extent `n` the coded sampling position of new index `i` is
-`i / ((n/o·o − 1)/(o − 1)) = i·(o−1)/(n−1)`; order-0 interpolation takes `⌊pos + ½⌋`, clamped (`mode='nearest'`).
-`n ≤ 1` or `o ≤ 1` give `0/0` or `k/0` in the code (NaN/∞ coordinates): modelled as `degenerate`, nothing is claimed.
-An exact half-way position is flagged (`tie`): float noise in the code decides it. -/
+The code is modelled in its own arithmetic: `srcF o n i` (Core/C18Float.lean) is the binary64 chain, operation by
+operation, so exact half-way sampling positions are decided the way the code decides them.
+`srcAxis` below is the *specification* in exact arithmetic: along an axis of old extent `o` and new extent `n` the
+ideal sampling position of new index `i` is `i·(o−1)/(n−1)`, order-0 interpolation takes the nearest index
+(`⌊pos + ½⌋`, clamped); `Lemmas/C18Chain.lean` relates the two.
+`n ≤ 1` or `o ≤ 1` give `0/0` or `k/0` in the code (NaN/∞ coordinates): modelled as `degenerate`, nothing is claimed
+about the content (shape and kind still are). -/
 
 inductive Src where
   | at (k : Nat)
@@ -58,6 +63,7 @@ inductive Src where
   | degenerate
 deriving DecidableEq, Repr
 
+/-- exact-arithmetic specification of the source index (`tie k`: the position is exactly half-way between `k-1`… and `k`) -/
 def srcAxis (o n i : Nat) : Src :=
   if n ≤ 1 ∨ o ≤ 1 then .degenerate
   else
@@ -77,8 +83,27 @@ def ravel : List Nat → List Nat → Nat
 
 def prod (l : List Nat) : Nat := l.foldl (· * ·) 1
 
-/-- value of one pixel of the resized mask: `some b` when determined by the model, `none` at ties / degenerate axes -/
-def resizeBit (m : Mask) (new : List Nat) (k : Nat) : Option Bool × Bool :=
+/-- an axis on which the code's sampling positions are NaN/∞ -/
+def degenerateAxes (old new : List Nat) : Bool :=
+  (old.zip new).any fun on => decide (on.1 ≤ 1) || decide (on.2 ≤ 1)
+
+/-- per axis: the source index of every new index (`srcF`, the binary64 chain), computed once per resize -/
+def axisTables (old new : List Nat) : List (List Nat) :=
+  List.zipWith (fun o n => (List.range n).map (srcF o n)) old new
+
+/-- value of flat pixel `k` of the resized mask, given the per-axis tables -/
+def resizeBitWith (tbls : List (List Nat)) (m : Mask) (new : List Nat) (k : Nat) : Bool :=
+  let idx := unravel new k
+  let ks := List.zipWith (fun (tbl : List Nat) i => tbl.getD i 0) tbls idx
+  m.bits.getD (ravel m.shape ks) false
+
+/-- value of one pixel of the resized mask as the code computes it (binary64 positions); `none` on degenerate axes -/
+def resizeBit (m : Mask) (new : List Nat) (k : Nat) : Option Bool :=
+  if degenerateAxes m.shape new then none
+  else some (resizeBitWith (axisTables m.shape new) m new k)
+
+/-- the same pixel by the exact-arithmetic specification; the flag says that some axis is sampled exactly half-way -/
+def resizeBitSpec (m : Mask) (new : List Nat) (k : Nat) : Option Bool × Bool :=
   let idx := unravel new k
   let srcs := (List.zipWith (fun (on : Nat × Nat) i => srcAxis on.1 on.2 i) (m.shape.zip new) idx)
   if srcs.any (· == .degenerate) then (none, false)
@@ -87,12 +112,21 @@ def resizeBit (m : Mask) (new : List Nat) (k : Nat) : Option Bool × Bool :=
     let b := m.bits.getD (ravel m.shape ks) false
     (some b, srcs.any fun s => match s with | .tie _ => true | _ => false)
 
-/-- the resized mask; `Err.scale` when an extent becomes 0 (the code raises ValueError), `Err.dims` on rank mismatch.
-Undetermined pixels (degenerate axes) are reported as `false` here and flagged by `resizeBit`. -/
-def resizeMask (m : Mask) (new : List Nat) : Except Err Mask :=
+/-- the resized mask, with the rounding of the template shape as a parameter (`resize` = `.round`).
+`Err.scale` when an extent becomes 0 (the code raises ValueError), `Err.dims` on rank mismatch, `Err.maskShape`
+when the warped mask does not get the requested shape (then `MaskedImage(f_pixels, mask=mask)` raises).
+Undetermined pixels (degenerate axes) are reported as `false` here and flagged by `resizeBit` / `degenerateAxes`. -/
+def resizeMaskR (rd : ShapeRound) (m : Mask) (new : List Nat) : Except Err Mask :=
   if new.length ≠ m.shape.length then .error .dims
   else if new.any (· == 0) then .error .scale
-  else .ok ⟨new, (List.range (prod new)).map fun k => ((resizeBit m new k).1).getD false⟩
+  else if List.zipWith (tmplExt rd) m.shape new ≠ new.map Int.ofNat then .error .maskShape
+  else
+    let deg := degenerateAxes m.shape new
+    let tbls := axisTables m.shape new
+    .ok ⟨new, (List.range (prod new)).map fun k => if deg then false else resizeBitWith tbls m new k⟩
+
+/-- `image.mask.resize(new_shape)` as coded -/
+def resizeMask (m : Mask) (new : List Nat) : Except Err Mask := resizeMaskR .round m new
 
 /-! ### landmarks: `NonUniformScale(new_shape / old_shape).apply(landmarks)` -/
 
